@@ -347,22 +347,335 @@ def peer_texts(ctx):
     return out
 
 
-def peer_part(ctx):
-    """remoteIPFromSDP (proxy/lib, unexported): in-package driver through the compiled test binary"""
-    exe = vlib.go_test_build("./proxy/lib", name="proxy_lib_sessdesc.test")
+def peer_part(ctx, exe, batch):
+    """remoteIPFromSDP (proxy/lib, unexported): in-package driver through the compiled test binary; the coarse
+    op `peer` (structure as in C08) and the op `peerg` with every partial operation of the function"""
     texts = peer_texts(ctx)
     pl = ["sdpstrip peerparse %s" % hx(t) for _, t in texts]
-    rc, res, err = vlib.run_impl(exe, pl, args=PEER_ARGS)
+    rc, res, err = vlib.run_impl(exe, pl, args=C13_ARGS)
     if rc != 0 or len(res) != len(pl):
         raise RuntimeError("peerparse phase failed: rc=%s %s" % (rc, err[-400:]))
-    lines, kinds = [], []
     for (k, t), r in zip(texts, res):
         st, caps = r.split(" ")
-        lines.append("sdpstrip peer %s %s %s" % (st, caps, hx(t)))
-        kinds.append("peer:" + k + (":unparsable" if st == "U" else ""))
-    model, impl = ctx.correspond(exe, lines, kinds, label="peer-address", prop=peer_prop, key_of=peer_key, impl_args=PEER_ARGS, crosscheck=20)
-    ctx.extra["peer_address_results"] = {"nil": sum(1 for r in impl if r == "nil"), "address": sum(1 for r in impl if r.startswith("x")),
-                                         "from_candidate_or_conn_line": "both paths generated (candidates removed from half of the grammar texts)"}
+        batch.add("sdpstrip peer %s %s %s" % (st, caps, hx(t)), "peer:" + k + (":unparsable" if st == "U" else ""))
+    return texts
+
+
+# ------------------------------------------------------------------ remoteIPFromSDP with its partial operations (op `peerg`)
+
+C13_ARGS = ["-test.run", "^TestVerifC13Driver$", "-verif.c13"]
+
+
+def contract_breach(pstruct, pcaps):
+    """which clause of lib_contract (coq/Model/SessDescPeer.v) the libraries' answer violates, or None"""
+    if pstruct not in ("U", "none"):
+        for m in pstruct.split(";"):
+            if m == "N":
+                return "pion/sdp stored a nil *MediaDescription"
+            for a in ([] if m == "-" else m.split(",")):
+                if a.startswith("k0.nil"):
+                    return "ice.UnmarshalCandidate returned neither a candidate nor an error"
+    for c in ([] if pcaps == "-" else pcaps.split(",")):
+        if c != "n" and not c.startswith("m3."):
+            return "FindStringSubmatch returned a slice of length %s for a pattern with two groups" % c[1:].split(".")[0]
+    return None
+
+
+def peerg_part(ctx, exe, texts, batch):
+    pl = ["sdpstrip peergparse %s" % hx(t) for _, t in texts]
+    rc, res, err = vlib.run_impl(exe, pl, args=C13_ARGS)
+    if rc != 0 or len(res) != len(pl):
+        ctx.violation("peer-address-panic", "the libraries under remoteIPFromSDP killed the driver at input %r: %s" % (
+            texts[len(res)][1][:300] if len(res) < len(texts) else None, err[-400:]), dict(label="peergparse", case=pl[len(res)] if len(res) < len(pl) else None))
+        return
+    breaches = 0
+    seen = {"candidate-with-error": 0, "candidate-ok": 0, "submatch-nil": 0, "submatch": 0}
+    for (k, t), r in zip(texts, res):
+        if r.startswith("!"):
+            ctx.violation("peer-address-panic", "the libraries under remoteIPFromSDP panicked on %r: %s" % (t[:300], r[:200]), dict(label="peergparse", case="sdpstrip peergparse " + hx(t)))
+            continue
+        st, caps = r.split(" ")
+        b = contract_breach(st, caps)
+        if b:
+            breaches += 1
+            if breaches <= 3:
+                ctx.not_shown("library contract assumed by C13_peer_addr_never_panics does not hold on %r: %s" % (t[:200], b))
+        seen["candidate-with-error"] += st.count("k1.")
+        seen["candidate-ok"] += st.count("k0.")
+        seen["submatch-nil"] += sum(1 for c in caps.split(",") if c == "n")
+        seen["submatch"] += sum(1 for c in caps.split(",") if c.startswith("m"))
+        batch.add("sdpstrip peerg %s %s %s" % (st, caps, hx(t)), "peerg:" + k + (":unparsable" if st == "U" else ""))
+    ctx.extra["peerg_library_answers"] = dict(seen, contract_breaches=breaches)
+
+
+# ------------------------------------------------------------------ callers on the untrusted path
+
+FP = "a=fingerprint:sha-256 0A:1B:2C:3D:4E:5F:60:71:82:93:A4:B5:C6:D7:E8:F9:0A:1B:2C:3D:4E:5F:60:71:82:93:A4:B5:C6:D7:E8:F9\r\n"
+SDP_MIN = "v=0\r\no=- 1 2 IN IP4 127.0.0.1\r\ns=-\r\nt=0 0\r\n"
+M_APP = "m=application 9 UDP/DTLS/SCTP webrtc-datachannel\r\n"
+
+# (label, SDP text): texts pion/sdp rejects, and texts it accepts although something every real description has is missing
+HOSTILE_SDPS = [
+    ("sdp-empty", ""), ("sdp-garbage", "x"), ("sdp-v-only", "v=0"), ("sdp-v-only-crlf", "v=0\r\n"), ("sdp-no-media", SDP_MIN),
+    ("sdp-no-fingerprint", SDP_SAMPLE), ("sdp-conn-without-address", SDP_SAMPLE.replace("c=IN IP4 0.0.0.0", "c=IN IP4")),
+    ("sdp-conn-blank-address", SDP_SAMPLE.replace("c=IN IP4 0.0.0.0", "c=IN IP4 ")), ("sdp-conn-garbage", SDP_SAMPLE.replace("c=IN IP4 0.0.0.0", "c=IN")),
+    ("sdp-media-port-garbage", SDP_SAMPLE.replace("m=application 9 ", "m=application x ")), ("sdp-media-short", SDP_MIN + "m=application\r\n"),
+    ("sdp-no-ufrag", SDP_MIN + M_APP + "c=IN IP4 0.0.0.0\r\n" + FP + "a=setup:active\r\na=mid:0\r\n"),
+    ("sdp-empty-ufrag", SDP_MIN + M_APP + FP + "a=ice-ufrag:\r\na=ice-pwd:\r\na=mid:0\r\n"),
+    ("sdp-bad-fingerprint", SDP_MIN + M_APP + "a=fingerprint:sha-256 ZZ\r\na=ice-ufrag:aMAZ\r\na=ice-pwd:jcHb08Jjgrazp2dzjdrvPPvV\r\na=mid:0\r\n"),
+    ("sdp-fingerprint-no-value", SDP_MIN + M_APP + "a=fingerprint:sha-256\r\na=ice-ufrag:aMAZ\r\na=ice-pwd:jcHb08Jjgrazp2dzjdrvPPvV\r\na=mid:0\r\n"),
+    ("sdp-bad-setup", SDP_MIN + M_APP + FP + "a=setup:bogus\r\na=mid:0\r\n"),
+    ("sdp-candidate-garbage", SDP_MIN + M_APP + "c=IN IP4 0.0.0.0\r\na=candidate:\r\na=candidate:1 1 udp x\r\na=mid:0\r\n"),
+    ("sdp-attr-before-media", "v=0\r\na=mid:0\r\n"), ("sdp-dup-origin", SDP_MIN + "o=- 1 2 IN IP4 127.0.0.1\r\n"),
+    ("sdp-many-media", SDP_MIN + (M_APP + "a=mid:0\r\n") * 150), ("sdp-long-line", SDP_MIN + "a=" + "x" * 60000 + "\r\n"),
+    ("sdp-lf-only", SDP_SAMPLE.replace("\r\n", "\n")), ("sdp-nul", SDP_MIN[:10] + "\x00" + SDP_MIN[10:]),
+    ("sdp-group-without-mid", SDP_MIN + "a=group:BUNDLE 0 1 2\r\n" + M_APP),
+    ("sdp-rtp-media-no-codecs", SDP_MIN + "m=audio 9 UDP/TLS/RTP/SAVPF\r\nc=IN IP4 0.0.0.0\r\na=mid:0\r\n" + FP),
+    ("sdp-extmap-garbage", SDP_MIN + "m=video 9 UDP/TLS/RTP/SAVPF 96\r\na=extmap:x y\r\na=rtpmap:96\r\na=fmtp:96\r\na=rtcp-fb:96\r\na=ssrc:x\r\na=ssrc-group:FID\r\na=mid:0\r\n" + FP),
+    ("sdp-simulcast-garbage", SDP_MIN + "m=video 9 UDP/TLS/RTP/SAVPF 96\r\na=rid:\r\na=simulcast:\r\na=msid:\r\na=mid:\r\n" + FP),
+]
+
+
+def hostile_inner(rng):
+    """(kind, text of the inner message = what util.DeserializeSessionDescription is given)"""
+    out = [(k, t.encode("utf-8", "surrogatepass") if isinstance(t, str) else t) for k, t in structured(rng)]
+    out += [(k, t) for k, t in malformed(rng, 0)]
+    for lbl, sdp in HOSTILE_SDPS:
+        for typ in TYPES:
+            out.append(("valid-json:" + lbl, ('{"type":%s,"sdp":%s}' % (js(typ), js(sdp))).encode()))
+    return out
+
+
+def wrap(site, inner, relay=""):
+    """the well-formed outer message of a site around the inner text (None when the inner text cannot be a JSON string)"""
+    try:
+        s = inner.decode("utf-8")
+    except UnicodeDecodeError:
+        return None
+    if site == "natprobe":
+        return json.dumps({"Version": "1.0", "Sid": "probe", "Answer": s}).encode()
+    if site == "polloffer":
+        return json.dumps({"Status": "client match", "Offer": s, "NAT": "unknown", "RelayURL": relay}).encode()
+    return json.dumps({"answer": s}).encode()
+
+
+RAW_OUTER = [b"", b"null", b"true", b"0", b"[]", b"{}", b"\"x\"", b"{", b"not json", b"\xff\xfe", b"[{}]",
+             b'{"Status":"client match"}', b'{"Status":"client match","Offer":""}', b'{"Status":"client match","Offer":null}',
+             b'{"Status":"client match","Offer":5}', b'{"Status":"client match","Offer":{"type":"offer","sdp":"x"}}',
+             b'{"Status":"no match"}', b'{"Status":"no match","Offer":"{\\"type\\":1,\\"sdp\\":2}"}', b'{"Status":"","Offer":"x"}',
+             b'{"Status":"whatever","Offer":"x"}', b'{"status":"client match","offer":"null"}', b'{"Status":"client match","Offer":"x","RelayURL":5}',
+             b'{"Status":"client match","Offer":"x","RelayURL":"%zz"}',
+             b'{"Version":"1.0","Sid":"s","Answer":"null"}', b'{"Version":"1.0","Sid":"s","Answer":null}', b'{"Version":"1.0","Sid":"s","Answer":7}',
+             b'{"Version":"1.0","Sid":"s"}', b'{"Version":"1.0","Sid":"","Answer":"x"}', b'{"Version":"2.0","Sid":"s","Answer":"x"}', b'{"Version":"","Sid":"s","Answer":"x"}',
+             b'{"Version":"1","Sid":"s","Answer":"{}"}', b'{"Version":1.0,"Sid":"s","Answer":"x"}', b'{"Sid":"s","Answer":"x"}',
+             b'{"Version":"1.0","Sid":"s","Answer":{"type":"answer","sdp":"x"}}',
+             b'{"answer":"null"}', b'{"answer":null}', b'{"answer":7}', b'{"answer":""}', b'{"error":"no proxies"}', b'{"answer":"x","error":"y"}', b'{"error":7}',
+             b'{"Answer":"{}","Error":""}', b'{"answer":{"type":"answer","sdp":"x"}}', b'{"answer":"{\\"type\\":\\"answer\\",\\"sdp\\":5}"}']
+
+
+def callers_part(ctx, pexe, cexe, pbatch, cbatch):
+    rng = ctx.rng
+    thorough = ctx.tier == "thorough"
+    ctx.assumptions += ["callers: model = coq/Model/SessDescCallers.v; the outer decoders of common/messages and pion's SetRemoteDescription are boundaries "
+                        "(the driver reports what the outer decoder returned; descriptions pion would accept completely are not generated: the callers "
+                        "would then wait 10-20 s for a data channel)",
+                        "a panic on the goroutine that runs the caller is the observable `!panic`; a panic on any other goroutine kills the driver and is "
+                        "reported as a driver crash at that case"]
+    inner = hostile_inner(rng)
+
+    def phase1(exe, site, bodies):
+        """bodies: list of lists of body bytes -> the outer token of every case, or None"""
+        pl = ["sessdesc cparse %s %s" % (site, ";".join(hx(b) for b in bs) if bs else "-") for bs in bodies]
+        rc, res, err = vlib.run_impl(exe, pl, args=C13_ARGS)
+        if rc != 0 or len(res) != len(pl):
+            raise RuntimeError("cparse %s failed: rc=%s %s" % (site, rc, err[-400:]))
+        return res
+
+    def sample(items, n):
+        items = list(items)
+        if len(items) <= n:
+            return items
+        # keep one of every kind, fill up at random
+        first, rest, seen = [], [], set()
+        for it in items:
+            (first if it[0] not in seen else rest).append(it)
+            seen.add(it[0])
+        rng.shuffle(rest)
+        return (first + rest)[:max(n, len(first))]
+
+    # ---- proxy: NAT probe answer (the probe server controls the whole body)
+    np_bodies = [("wrapped:" + k, wrap("natprobe", t)) for k, t in inner] + [("raw-outer", b) for b in RAW_OUTER]
+    np_bodies = [(k, b) for k, b in np_bodies if b is not None]
+    np_bodies = sample(np_bodies, 90 if not thorough else 600)
+    toks = phase1(pexe, "natprobe", [[b] for _, b in np_bodies])
+    lines = ["sessdesc natprobe %s %s" % (tk, hx(b)) for (k, b), tk in zip(np_bodies, toks)] + ["sessdesc natprobe p x"]
+    kinds = ["natprobe:" + k.split(",")[0] for k, _ in np_bodies] + ["natprobe:exchange-fails"]
+    pbatch.extend(lines, kinds)
+
+    # ---- proxy: pollOffer (every inner text; scripts of several answers) and runSession
+    po = [("wrapped:" + k, [wrap("polloffer", t)]) for k, t in inner] + [("raw-outer", [b]) for b in RAW_OUTER]
+    po = [(k, bs) for k, bs in po if bs[0] is not None]
+    nomatch = b'{"Status":"no match"}'
+    multi = [("script:no-match-then-hostile", [nomatch, wrap("polloffer", b'{"type":1,"sdp":"x"}')])]
+    if thorough:
+        multi += [("script:no-match-then-bad", [nomatch, b"null"]), ("script:two-no-match-then-offer", [nomatch, nomatch, wrap("polloffer", b'{"type":"offer","sdp":"x"}')])]
+    po += multi
+    toks = phase1(pexe, "polloffer", [bs for _, bs in po])
+    lines = ["sessdesc polloffer %s %s" % (tk, ";".join(hx(b) for b in bs)) for (k, bs), tk in zip(po, toks)] + ["sessdesc polloffer - -"]
+    kinds = ["polloffer:" + k.split(",")[0] for k, _ in po] + ["polloffer:shutdown"]
+    pbatch.extend(lines, kinds)
+
+    rs = [(k, bs, "1") for k, bs in sample([x for x in po if not x[0].startswith("script:")], 160 if not thorough else 1200)]
+    rs += [("relay-rejected:" + k, [wrap("polloffer", t, relay="ws://relay.example/")], "0") for k, t in sample(inner, 25) if wrap("polloffer", t) is not None]
+    toks = phase1(pexe, "polloffer", [bs for _, bs, _ in rs])
+    lines = ["sessdesc runsession %s %s %s" % (tk, ok, ";".join(hx(b) for b in bs)) for (k, bs, ok), tk in zip(rs, toks)]
+    kinds = ["runsession:" + k.split(",")[0] for k, _, _ in rs]
+    pbatch.extend(lines, kinds)
+
+    # ---- client: Negotiate (every inner text) and connect
+    ng = [("wrapped:" + k, wrap("negotiate", t)) for k, t in inner] + [("raw-outer", b) for b in RAW_OUTER]
+    ng = [(k, b) for k, b in ng if b is not None]
+    toks = phase1(cexe, "negotiate", [[b] for _, b in ng])
+    lines = ["sessdesc negotiate %s %s" % (tk, hx(b)) for (k, b), tk in zip(ng, toks)] + ["sessdesc negotiate x x"]
+    kinds = ["negotiate:" + k.split(",")[0] for k, _ in ng] + ["negotiate:exchange-fails"]
+    cbatch.extend(lines, kinds)
+
+    cn = sample(ng, 90 if not thorough else 600)
+    toks = phase1(cexe, "negotiate", [[b] for _, b in cn])
+    lines = ["sessdesc connect %s %s" % (tk, hx(b)) for (k, b), tk in zip(cn, toks)] + ["sessdesc connect x x"]
+    kinds = ["connect:" + k.split(",")[0] for k, _ in cn] + ["connect:exchange-fails"]
+    cbatch.extend(lines, kinds)
+
+
+CALLER = {"natprobe": ("natprobe", "proxy checkNATType (answer of the NAT probe server)"),
+          "polloffer": ("polloffer", "proxy pollOffer (offer relayed by the broker)"),
+          "runsession": ("polloffer", "proxy runSession (offer relayed by the broker)"),
+          "negotiate": ("negotiate", "client Negotiate (answer relayed by the broker)"),
+          "connect": ("negotiate", "client connect (answer relayed by the broker)")}
+
+
+def caller_body(a):
+    try:
+        return b" | ".join(bytes.fromhex(x[1:]) for x in a[-1].split(";") if x not in ("-", "x"))[:300]
+    except ValueError:
+        return a[-1][:200]
+
+
+def caller_prop(line, impl, model):
+    a = line.split(" ")
+    name, what = CALLER[a[1]]
+    if impl.startswith("!panic") or impl in ("!died", "!hang"):
+        how = {"!died": "terminated the process (panic outside the calling goroutine, or exit)", "!hang": "hangs"}.get(impl, "panicked")
+        return "%s %s on a message a remote party can send: %r (%s)" % (what, how, caller_body(a), impl[:160])
+    if impl == "!nilnil":
+        return "%s returned neither a description nor an error on %r: its caller dereferences the result" % (what, caller_body(a))
+    if impl == "!description-and-error":
+        return "%s returned a description together with an error on %r" % (what, caller_body(a))
+    return None
+
+
+def caller_key(line, impl, model):
+    return CALLER[line.split(" ")[1]][0] + "-caller-panic"
+
+
+IGNORED_LAST = ("deser", "deser0", "peer", "peerg", "natprobe", "polloffer", "runsession", "negotiate", "connect")
+
+
+def crosscheck_once(ctx, pools, n):
+    """one in-Coq (vm_compute) cross-check of the extracted runner over a sample of all case lines of the run; for
+    ops whose last argument is only read by the Go driver (the text / body itself) it is replaced by x00 so that
+    long cases qualify too - the model output cannot depend on it (see `run` in coq/Run/S*Run.v)"""
+    pairs = []
+    for lines, model in pools:
+        for l, m in zip(lines, model):
+            a = l.split(" ")
+            if a[1] in IGNORED_LAST:
+                l = " ".join(a[:-1] + ["x00"])
+            if len(l) < 400 and len(m) < 2000 and not m.startswith("!"):
+                pairs.append((l, m))
+    ctx.rng.shuffle(pairs)
+    byop = {}
+    for l, m in pairs:
+        byop.setdefault(l.split(" ")[1], []).append((l, m))
+    sample = []
+    while len(sample) < n and any(byop.values()):
+        for op in sorted(byop):
+            if byop[op] and len(sample) < n:
+                sample.append(byop[op].pop())
+    if sample:
+        bad = vlib.coq_crosscheck(sample)
+        ctx.extra["vm_compute_crosschecked"] = ctx.extra.get("vm_compute_crosschecked", 0) + len(sample)
+        for i in bad:
+            ctx.not_shown("extraction cross-check: vm_compute and extracted runner differ on `%s`" % sample[i][0][:300])
+
+
+def robust_run(ctx, exe, lines, args, label):
+    """Run the driver on `lines`; returns (path of a file with one result line per case, notes).  When the driver
+    process dies - the code under test panicked on a goroutine other than the one that runs the case, or exited -
+    the results it had buffered are lost with it; the cases are then run again in blocks, and the cases of every
+    block that dies one process each, so that exactly the cases that kill the process get the observable `!died`
+    and every other case keeps its real result."""
+    import os, tempfile
+    rc, res, err = vlib.run_impl(exe, lines, args=args)
+    if rc != 0 or len(res) != len(lines):
+        res = []
+        step = 64
+        for i in range(0, len(lines), step):
+            chunk = lines[i:i + step]
+            rc, r, err = vlib.run_impl(exe, chunk, args=args)
+            if rc == 0 and len(r) == len(chunk):
+                res += r
+                continue
+            died = 0
+            for l in chunk:
+                rc1, r1, e1 = vlib.run_impl(exe, [l], args=args)
+                if rc1 == 0 and len(r1) == 1:
+                    res.append(r1[0])
+                else:
+                    died += 1
+                    res.append("!died")
+                    if died == 1:
+                        tail = " | ".join(x.strip() for x in e1.split("\n") if x.startswith(("panic:", "fatal error:", "[signal")))[:400]
+                        ctx.extra.setdefault("driver_process_exits", []).append("%s: status %s on `%s`: %s" % (label, rc1, l[:160], tail or e1[-200:]))
+            if not died:
+                ctx.not_shown("%s: the driver died in cases %d..%d but on none of them alone (state carried over between cases)" % (label, i, i + len(chunk) - 1))
+    os.makedirs(vlib.TMP, exist_ok=True)
+    fd, path = tempfile.mkstemp(prefix="c13res_", dir=vlib.TMP)
+    with os.fdopen(fd, "w") as f:
+        f.write("\n".join(res) + "\n")
+    return path
+
+
+def correspond_robust(ctx, exe, lines, kinds, args, label, prop, key_of):
+    """ctx.correspond on results obtained with robust_run (`cat <file>` stands in for the driver)"""
+    import os
+    path = robust_run(ctx, exe, lines, args, label)
+    try:
+        return ctx.correspond("/bin/cat", lines, kinds, label=label, prop=prop, key_of=key_of, impl_args=[path], crosscheck=0)
+    finally:
+        os.remove(path)
+
+
+class Batch:
+    """case lines of several ops for one driver binary: one model run, one driver run, one in-Coq cross-check"""
+    def __init__(self):
+        self.lines, self.kinds = [], []
+
+    def add(self, line, kind):
+        self.lines.append(line); self.kinds.append(kind)
+
+    def extend(self, lines, kinds):
+        self.lines += lines; self.kinds += kinds
+
+
+def any_prop(line, impl, model):
+    op = line.split(" ")[1]
+    return (peer_prop if op in ("peer", "peerg") else caller_prop)(line, impl, model)
+
+
+def any_key(line, impl, model):
+    op = line.split(" ")[1]
+    return (peer_key if op in ("peer", "peerg") else caller_key)(line, impl, model)
 
 
 def run(ctx):
@@ -375,9 +688,23 @@ def run(ctx):
                         "remoteIPFromSDP (proxy/lib) is modelled over the parsed SDP (coq/Model/SdpStrip.v remote_ip): pion/sdp, pion/ice, net.ParseIP "
                         "and the two c= regular expressions are library boundary (driver reports what they yield); their panic freedom is observed, not proved"]
     lines, kinds = gen(ctx, exe)
-    ctx.correspond(exe, lines, kinds, label="sessdesc", prop=prop, key_of=key_of)
+    model, _ = ctx.correspond(exe, lines, kinds, label="sessdesc", prop=prop, key_of=key_of, crosscheck=0)
+    pools = [(lines, model)]
     invalid_utf8_monitor(ctx, exe)
-    peer_part(ctx)
+    pexe = vlib.go_test_build("./proxy/lib", name="proxy_lib_c08c13.test")
+    cexe = vlib.go_test_build("./client/lib", name="client_lib_c08c13.test")
+    pbatch, cbatch = Batch(), Batch()
+    texts = peer_part(ctx, pexe, pbatch)
+    peerg_part(ctx, pexe, texts, pbatch)
+    callers_part(ctx, pexe, cexe, pbatch, cbatch)
+    model, impl = correspond_robust(ctx, pexe, pbatch.lines, pbatch.kinds, C13_ARGS, "proxy/lib", any_prop, any_key)
+    pools.append((pbatch.lines, model))
+    pa = [r for l, r in zip(pbatch.lines, impl) if l.startswith("sdpstrip peer ")]
+    ctx.extra["peer_address_results"] = {"nil": sum(1 for r in pa if r == "nil"), "address": sum(1 for r in pa if r.startswith("x")),
+                                         "from_candidate_or_conn_line": "both paths generated (candidates removed from half of the grammar texts)"}
+    model, _ = correspond_robust(ctx, cexe, cbatch.lines, cbatch.kinds, C13_ARGS, "client/lib", any_prop, any_key)
+    pools.append((cbatch.lines, model))
+    crosscheck_once(ctx, pools, 90)
 
 
 def replay(ctx, doc):
@@ -387,10 +714,24 @@ def replay(ctx, doc):
         case = v["replay"].get("case")
         if not case:
             continue
+        if case.split(" ")[1] in ("peerg", "peergparse") or (case.startswith("sessdesc ") and case.split(" ")[1] in CALLER):
+            a = case.split(" ")
+            which = "./client/lib" if a[1] in ("negotiate", "connect") else "./proxy/lib"
+            xexe = vlib.go_test_build(which, name=("client" if "client" in which else "proxy") + "_lib_c08c13.test")
+            if a[1] == "peergparse":
+                rc, r, err = vlib.run_impl(xexe, [case], args=C13_ARGS)
+                case = "sdpstrip peerg %s %s" % (r[0], a[2]) if r and not r[0].startswith("!") else case
+            m = vlib.run_model([case])[0] if " peergparse " not in case else "?"
+            rc, r, err = vlib.run_impl(xexe, [case], args=C13_ARGS)
+            r = r[0] if r else "!died"
+            p = (peer_prop if a[0] == "sdpstrip" else caller_prop)(case, r, m)
+            print("case: %s\n model: %s\n impl:  %s\n property: %s" % (case[:400], m, r[:300], p or "holds"))
+            bad += 1 if p else 0
+            continue
         if case.startswith("sdpstrip peer "):
-            pexe = vlib.go_test_build("./proxy/lib", name="proxy_lib_sessdesc.test")
+            pexe = vlib.go_test_build("./proxy/lib", name="proxy_lib_c08c13.test")
             m = vlib.run_model([case])[0]
-            rc, r, err = vlib.run_impl(pexe, [case], args=PEER_ARGS)
+            rc, r, err = vlib.run_impl(pexe, [case], args=C13_ARGS)
             r = r[0] if r else "!died"
             p = peer_prop(case, r, m)
             print("case: %s\n model: %s\n impl:  %s\n property: %s" % (case[:300], m, r, p or "holds"))
